@@ -18,7 +18,7 @@ usage: python -m harness.chronicle_h <jobs.json> <out.ndjson>
 
  VERIF_MUTANT=<name>   in-memory mutant of the real functions (binding demonstration,
                        never written to /repo): append_overwrite append_twice find_le
-                       find_status find_unsorted api_swap
+                       find_status find_unsorted find_localdate find_notsuccess api_swap
  VERIF_CORRUPT=<name>  corrupt one recorded field: res_drop files_drop
 '''
 
@@ -65,11 +65,13 @@ chronicle.datetime = Clock
 
 
 # ---------------------------------------------------------------- mutants
-def _mutate(fn_name, old, new):
+def _mutate(fn_name, *pairs):
     src = textwrap.dedent(inspect.getsource(getattr(chronicle, fn_name)))
-    assert old in src, (fn_name, old)
+    for old, new in zip(pairs[0::2], pairs[1::2]):
+        assert old in src, (fn_name, old)
+        src = src.replace(old, new)
     ns = chronicle.__dict__
-    exec(compile(src.replace(old, new), f'<mutant {fn_name}>', 'exec'), ns)  # pylint: disable=exec-used
+    exec(compile(src, f'<mutant {fn_name}>', 'exec'), ns)  # pylint: disable=exec-used
 
 
 def install_mutant(name):
@@ -83,6 +85,10 @@ def install_mutant(name):
         _mutate('_load', " and entry['status'] == status", '')
     elif name == 'find_unsorted':
         _mutate('_load', 'reverse=True', 'reverse=False')
+    elif name == 'find_localdate':  # walk by the local date of the bounds (directories are UTC dates)
+        _mutate('find', 'before.astimezone(UTC)', 'before', 'after.astimezone(UTC).date()', 'after.date()')
+    elif name == 'find_notsuccess':  # failed = everything that is not a success (invalid runs included)
+        _mutate('_load', "entry['status'] == status", "(entry['status'] == 'success') == succeeded")
     elif name == 'api_swap':
         orig_f, orig_s = api.failed, api.succeeded
         api.failed, api.succeeded = orig_s, orig_f
